@@ -5,7 +5,7 @@
    order, target last), NewHasherReaders (TeeReader), FileHash.Verifier, FileHashFromHasher, the parsing of
    checksum lines and the best-checksum selector. *)
 From Coq Require Import List Ascii String Bool Arith ZArith Lia.
-Require Import GS H12 H13.
+Require Import GS H12 H13 H14.
 Import ListNotations.
 
 Section C12.
@@ -54,7 +54,13 @@ Section C12.
                     H (h_alg h) (List.concat chunks') = H (h_alg h) (List.concat chunks).
   Proof. exact (C12_from_hasher H). Qed.
 End C12.
+(* the same with the hexadecimal law discharged for the lower-case encoder the library uses (fmt "%x") *)
+Theorem C12_entry_from_hasher_lowercase_hex : forall H names chunks st h path, run_writers names chunks = Some st -> In h (w_hashers st) ->
+  forall chunks', verify H (from_hasher H hex_encode path h) chunks' = Accept <->
+                  H (h_alg h) (List.concat chunks') = H (h_alg h) (List.concat chunks).
+Proof. exact C12_entry_from_hasher_hex. Qed.
 Print Assumptions C12_any_chunking.
 Print Assumptions C12_verifier_iff.
 Print Assumptions C12_best_checksums.
 Print Assumptions C12_entry_from_hasher.
+Print Assumptions C12_entry_from_hasher_lowercase_hex.
